@@ -126,6 +126,9 @@ class IntegralMonitor:
         if isinstance(term, fl.Aggregated) and (term.aggregation is None or any(a.implication is None for a in term.terms)):
             ctx.hit("out_of_domain:missing operator")
             return
+        if not isinstance(term, fl.Aggregated) and type(term).__module__ != fl.Term.__module__:
+            ctx.hit("out_of_domain:term class defined outside the library (its membership need not be a function of x)")
+            return
         case = {"defuzzifier": kind, "resolution": r, "minimum": lo, "maximum": hi, "set": term.parameters() if isinstance(term, fl.Aggregated) else str(term)}
         if exc is not None:
             ctx.violation(f"{kind}: defuzzify raises {type(exc).__name__}", case, "a value", repr(exc))
